@@ -2307,6 +2307,77 @@ def _document_text_rule(run, f: Func, doc: str):
         raise AnchorError('%s: no store of a field value into the %s document found' % (f.qual, doc))
 
 
+# ---------------------------------------------------------------------------
+# R4 (b2) Vary: Accept holds THROUGH Response.append_header
+# ---------------------------------------------------------------------------
+
+# prior values of the Vary header (None: not set): what middleware / the error's own headers may have put there
+VARY_BEFORE = (None, '', 'Accept', 'accept', '*', 'Origin', 'Accept-Encoding', 'Accept-Language, Cookie', 'X-Accept-Version',
+               'Origin, Accept-Encoding', 'Accept-Encoding, Accept', 'Cookie,Accept')
+
+
+def _members(text: str) -> List[str]:
+    return [m.strip().lower() for m in text.split(',') if m.strip()]
+
+
+def _vary_through_append(run, ser: Func, call: ast.Call, respn: str):
+    """The serializer's `resp.append_header('Vary', 'Accept')` promises the MEMBER Accept in the Vary header whatever the
+    header held before.  Decided by evaluating the body of the response classes' append_header (nothing is imported or
+    executed: c09_helpers.ConcreteEval interprets the AST) on the serializer's own constant arguments for every prior
+    value in VARY_BEFORE: afterwards the comma-separated members of the stored value contain 'accept' and every member
+    that was there before.
+    W: a middleware set Vary: Accept-Encoding; append_header skips the append because 'Accept' in 'Accept-Encoding' ->
+    the negotiated (JSON vs XML) error body goes out without Vary: Accept."""
+    p = run.project
+    name, value = (p.fold(ser.module, x, None, ser) for x in call.args)
+    seen: Dict[str, Tuple[Func, str, List[str]]] = {}
+    for app, _q, tag in APPS:
+        cq = _response_class(p, app)
+        f = p.lookup_method(cq, 'append_header')
+        if f is None:
+            raise AnchorError('%s.append_header not found' % cq)
+        seen.setdefault(f.qual, (f, cq, []))[2].append(tag)
+    for f, cq, tags in seen.values():
+        run.use(f)
+        tag = '/'.join(tags)
+        params = f.params()
+        if len(params) != 3:
+            raise UnknownIdiom('%s: signature %s' % (f.qual, params))
+        failures = []
+        for before in VARY_BEFORE:
+            ce = _c9.ConcreteEval(p)
+            headers = {} if before is None else {name.lower(): before}
+            obj = _c9.CObj(cq, {'_headers': headers, '_extra_headers': None})
+            try:
+                ce.call_func(f, [obj, name, value], {})
+            except _c9.CRaise as ex:
+                raise UnknownIdiom('%s: evaluation on (%r, %r) with prior value %r raises %s' % (f.qual, name, value, before, ex.cls))
+            after = obj.attrs.get('_headers')
+            if not isinstance(after, dict) or not all(isinstance(k, str) and isinstance(v, str) for k, v in after.items()):
+                raise UnknownIdiom('%s: does not keep the headers as a str -> str dict in self._headers' % f.qual)
+            got = [after[k] for k in after if k.lower() == name.lower()]
+            if len(got) > 1:
+                raise UnknownIdiom('%s: stores %s under several keys' % (f.qual, name))
+            have = _members(got[0]) if got else []
+            want = _members(before or '') + [value.lower()]
+            missing = [m for m in dict.fromkeys(want) if m not in have]
+            if missing:
+                tests = [t for t in ce.trace if t[0] == 'test' and t[3] == f.qual]
+                failures.append((before, got[0] if got else None, missing, tests[-1] if tests else None))
+        if failures:
+            before, got, missing, test = failures[0]
+            construct = test[1] if test is not None else 'append_header(%r, %r)' % (name, value)
+            run.fail('%s: after the default error serializer\'s append_header(%r, %r) the %s header lists %s next to whatever it listed before'
+                     % (tag, name, value, name, value), f, construct, where=f.loc(test[1]) if test is not None else f.loc(),
+                     witness=['%s: %r before -> %r after (members lost: %s)' % (name, b, g, ', '.join(m_)) for (b, g, m_, _t) in failures],
+                     runtime_witness='a middleware sets %s: %s before the error is rendered: the response goes out with %s: %s, without the '
+                                     'member %s, and a shared cache may serve the XML rendering to a JSON client'
+                                     % (name, before, name, got, value))
+        else:
+            run.ok('%s: after the default error serializer\'s append_header(%r, %r) the %s header lists %s next to whatever it listed before '
+                   '(%d prior values evaluated)' % (tag, name, value, name, value, len(VARY_BEFORE)), f.loc(), 'append_header(%r, %r)' % (name, value))
+
+
 def r4_rendering(run):
     p = run.project
     _anchors(run.project)
@@ -2341,6 +2412,9 @@ def r4_rendering(run):
     run.check(bool(vary) and path is None, 'the default error serializer appends Vary: Accept on every path', ser,
               "%s.append_header('Vary', 'Accept')" % respn, where=ser.loc(), witness=flow.describe_path(cfg, path) if path else None,
               runtime_witness='an error response without Vary: Accept (e.g. when no acceptable media type was found)')
+    # (b2) ... and the header helper it calls really adds the member
+    for c in vary:
+        _vary_through_append(run, ser, c, respn)
     # (f) negotiated media type
     _negotiation_rule(run, ser)
     # (c) sibling field sets
@@ -2384,7 +2458,143 @@ def _python_handler_name(p) -> str:
     raise AnchorError('default handler for Exception not found in App.__init__')
 
 
+TEMPLATE_WHY = 'format template built from non-constant text'
+
+
+class _FormatEscape(SiteEscape):
+    """E5 for the handler of last resort, where `str.format` / `%` / `format_map` is NOT taken as total: it is total only
+    for a template that is a constant (and, for .format, whose replacement fields are all supplied).  A template built from
+    non-constant text (a parameter, a concatenation with one) is parsed at run time: any '{' / '}' / '%' in that text raises
+    KeyError / IndexError / ValueError (TypeError / ValueError for %).
+    W: log_error() doing (PREFIX + message).format(...) with message = a traceback quoting '{"op": 1}' -> KeyError out of
+    App._python_error_handler, out of __call__, into the WSGI server; the remaining process_response methods never run."""
+
+    FORMAT_ERRORS = ('builtins.IndexError', 'builtins.KeyError', 'builtins.ValueError')
+    PERCENT_ERRORS = ('builtins.TypeError', 'builtins.ValueError')
+
+    def _bindings(self, func: Func, name: str):
+        """value expressions bound to the local `name` (None: bound in a way that is not a plain single-name assignment)."""
+        if name in func.params():
+            return None
+        vals = []
+        for n in walk_no_nested(func.node):
+            if isinstance(n, ast.Assign) and any(isinstance(x, ast.Name) and x.id == name for t in n.targets for x in ast.walk(t)):
+                if len(n.targets) != 1 or not isinstance(n.targets[0], ast.Name):
+                    return None
+                vals.append(n.value)
+            elif isinstance(n, ast.AnnAssign) and is_name(n.target, name):
+                if n.value is not None:
+                    vals.append(n.value)
+            elif isinstance(n, ast.Name) and n.id == name and isinstance(n.ctx, (ast.Store, ast.Del)):
+                pass
+        stores = [n for n in walk_no_nested(func.node) if isinstance(n, ast.Name) and n.id == name and isinstance(n.ctx, (ast.Store, ast.Del))]
+        return vals if vals and len(stores) == len(vals) else None
+
+    def _template(self, func: Func, e, depth=0) -> Optional[List[str]]:
+        """the constant texts `e` can denote, or None when (part of) it is not a constant."""
+        v = self.p.fold(func.module, e, None, func)
+        if isinstance(v, str):
+            return [v]
+        if depth > 4:
+            return None
+        if isinstance(e, ast.IfExp):
+            alts = [self._template(func, x, depth + 1) for x in (e.body, e.orelse)]
+        elif isinstance(e, ast.BoolOp):
+            alts = [self._template(func, x, depth + 1) for x in e.values]
+        elif isinstance(e, ast.Name):
+            vals = self._bindings(func, e.id)
+            if not vals:
+                return None
+            alts = [self._template(func, x, depth + 1) for x in vals]
+        else:
+            return None
+        if any(a is None for a in alts):
+            return None
+        return [t for a in alts for t in a]
+
+    def _texty(self, func: Func, e, depth=0) -> bool:
+        """`e` is certainly a str (so that `e % x` is formatting, not arithmetic)."""
+        if isinstance(e, ast.Constant):
+            return isinstance(e.value, str)
+        if isinstance(e, ast.JoinedStr):
+            return True
+        if isinstance(e, ast.BinOp) and isinstance(e.op, ast.Add):
+            return self._texty(func, e.left, depth) or self._texty(func, e.right, depth)
+        if isinstance(e, ast.Call) and isinstance(e.func, ast.Attribute) and e.func.attr in ('format', 'join', 'format_map'):
+            return True
+        if isinstance(e, ast.Call) and isinstance(e.func, ast.Name) and e.func.id == 'str':
+            return True
+        if isinstance(e, ast.Name) and depth < 3:
+            vals = self._bindings(func, e.id)
+            return bool(vals) and all(self._texty(func, x, depth + 1) for x in vals)
+        return isinstance(self.p.fold(func.module, e, None, func), str)
+
+    def _format_site(self, n: ast.Call, func, selfcls, handlers, out):
+        import string
+        recv = n.func.value
+        alts = self._template(func, recv)
+        if alts is None:
+            for exc in self.FORMAT_ERRORS:
+                self._prim(out, exc, func, n, handlers, TEMPLATE_WHY)
+            return
+        if n.func.attr != 'format':
+            return
+        open_pos = any(isinstance(a, ast.Starred) for a in n.args)
+        open_kw = any(k.arg is None for k in n.keywords)
+        names = {k.arg for k in n.keywords}
+        for t in alts:
+            try:
+                fields = [fld for (_lit, fld, _spec, _conv) in string.Formatter().parse(t) if fld is not None]
+            except ValueError:
+                self._prim(out, 'builtins.ValueError', func, n, handlers, 'malformed constant format template')
+                continue
+            auto = 0
+            for fld in fields:
+                head = re.split(r'[.\[]', fld, maxsplit=1)[0]
+                if head == '':
+                    idx, auto = auto, auto + 1
+                elif head.isdigit():
+                    idx = int(head)
+                else:
+                    if head not in names and not open_kw:
+                        self._prim(out, 'builtins.KeyError', func, n, handlers, 'replacement field {%s} is not supplied' % head)
+                    continue
+                if idx >= len(n.args) and not open_pos:
+                    self._prim(out, 'builtins.IndexError', func, n, handlers, 'replacement field {%s} is not supplied' % idx)
+
+    def _call(self, n: ast.Call, func, selfcls, handlers, out):
+        f = n.func
+        if isinstance(f, ast.Attribute) and f.attr in ('format', 'format_map'):
+            # a str method unless the receiver is a package object / module that has its own `format`
+            rc = self._receiver_class(f.value, func, selfcls)
+            t = self.p.resolve_callable(func, f)
+            own = (rc is not None and self.p.lookup_method(rc, f.attr) is not None) or (t is not None and not isinstance(t, str)) \
+                or self.p.resolve_expr(func.module, f.value, func) in self.p.modules
+            if not own:
+                self._format_site(n, func, selfcls, handlers, out)
+        super()._call(n, func, selfcls, handlers, out)
+
+    def _expr(self, e, func, selfcls, handlers, out, store=False):
+        super()._expr(e, func, selfcls, handlers, out, store)
+        if e is None:
+            return
+        for n in [e] + list(walk_no_nested(e)):
+            if isinstance(n, ast.BinOp) and isinstance(n.op, ast.Mod) and self._texty(func, n.left) and self._template(func, n.left) is None:
+                for exc in self.PERCENT_ERRORS:
+                    self._prim(out, exc, func, n, handlers, TEMPLATE_WHY)
+
+
 def r5_never_escapes(run):
+    _r5(run, compose=True, escape=True)
+
+
+def r5_handler_raises_nothing(run):
+    """The escape half of R5 alone (shared with C03: "process_response still runs after an unexpected exception" needs
+    the handler of last resort not to raise)."""
+    _r5(run, compose=False, escape=True)
+
+
+def _r5(run, compose: bool, escape: bool):
     p = run.project
     _anchors(run.project)
     name = _python_handler_name(p)
@@ -2412,30 +2622,47 @@ def r5_never_escapes(run):
                     raise UnknownIdiom('%s: composed error %s is not an HTTPError construction' % (f.qual, short(e)))
                 code = _class_status_code(p, cls)
                 (good if code == 500 else bad).append((c, code))
-        for c, code in bad:
-            run.fail('%s: the default handler for Exception composes a 500 response' % tag, f, c,
-                     runtime_witness='an unexpected exception is reported with status %s' % code)
         nodes = _call_nodes(ix, [c for c, _ in good])
-        path = _all_paths_through(cfg, nodes, http)
-        run.check(bool(nodes) and path is None, '%s: the default handler for Exception composes a 500 response on every path' % tag, f,
-                  'self._compose_error_response(%s, %s, <500>)' % (reqn, respn), where=f.loc(),
-                  witness=flow.describe_path(cfg, path) if path else None,
-                  runtime_witness='an unexpected exception leaves the response as the responder left it (e.g. 200)')
+        if compose:
+            for c, code in bad:
+                run.fail('%s: the default handler for Exception composes a 500 response' % tag, f, c,
+                         runtime_witness='an unexpected exception is reported with status %s' % code)
+            path = _all_paths_through(cfg, nodes, http)
+            run.check(bool(nodes) and path is None, '%s: the default handler for Exception composes a 500 response on every path' % tag, f,
+                      'self._compose_error_response(%s, %s, <500>)' % (reqn, respn), where=f.loc(),
+                      witness=flow.describe_path(cfg, path) if path else None,
+                      runtime_witness='an unexpected exception leaves the response as the responder left it (e.g. 200)')
+        if not escape:
+            continue
         # nothing of its own escapes.  Not judged here: the user-replaceable serializer, and the composition of the
         # fresh constant-status HTTPInternalServerError (its status/headers are decided by R4 a/d, value-dependent for E5)
-        E = SiteEscape(p, receivers={reqn: _request_class(p, app), respn: _response_class(p, app)})
+        E = _FormatEscape(p, receivers={reqn: _request_class(p, app), respn: _response_class(p, app)})
         live = flow.reachable(cfg, [cfg.entry], edge_filter=pruned(cfg, _truthy(respn)))
-        good_stmts = {id(cfg.node(n).ast) for n in nodes} | construction
+        # (a composition with another status is the compose half's violation, not an escape of the handler's own)
+        good_stmts = {id(cfg.node(n).ast) for n in _call_nodes(ix, [c for c, _ in good + bad])} | construction
 
         def keep(s, cfg=cfg, live=live, good_stmts=good_stmts):
             return id(s) not in good_stmts and bool(nodes_within(cfg, [s]) & live)
 
         E.restrict(f, keep)
         summ = E.summary(f, p.cls(app))
+        templates: Dict[Tuple[str, str], Tuple[list, List[str]]] = {}
         for key, chain in sorted(summ.items()):
             cls, origin = split_key(key)
+            if TEMPLATE_WHY in chain[-1][1]:
+                templates.setdefault(chain[-1], (chain, []))[1].append(cls.rsplit('.', 1)[-1])
+                continue
             run.fail('%s: nothing raised by the default Exception handler itself escapes it' % tag, f,
                      '%s raises %s' % (_site_text(chain[0][1]), cls), where=chain[0][0], witness=['%s %s' % w for w in chain])
+        for (where, text), (chain, classes) in sorted(templates.items()):
+            rel, _, line = where.rpartition(':')
+            g = _func_at(p, rel, int(line)) if line.isdigit() else None
+            run.fail('%s: no text formatting reachable from the default Exception handler parses non-constant text as its template '
+                     '(str.format / %% raise on a brace / percent sign in it)' % tag, g or f, _site_text(text), where=where,
+                     witness=['%s %s' % w for w in chain],
+                     runtime_witness='an unexpected exception whose traceback text contains "{" or "}" (a quoted JSON document, a dict '
+                                     'literal on a source line): %s escapes the handler of last resort, the app callable raises into the '
+                                     'server and the remaining process_response methods never run' % '/'.join(classes))
         if not summ:
             run.ok('%s: the default Exception handler has an empty escape set of its own' % tag, f.loc(), f.name)
         # the exception OBJECT is user data: converting it to text runs its class's __str__/__repr__/__format__,
@@ -2807,35 +3034,180 @@ def r6_pre_try(run):
 # ---------------------------------------------------------------------------
 
 class _AcceptGetterEval(_c9._GetterEval):
-    """c09_helpers' accessor interpreter, which additionally reads `<bytes constant>.decode(<codec>)` (the default of a
-    `.get(b'accept', b'*/*')` lookup decoded together with the header value)."""
+    """c09_helpers' accessor interpreter, which additionally reads
+
+    * `<bytes constant>.decode(<codec>)` (the default of a `.get(b'accept', b'*/*')` lookup decoded together with the value);
+    * a call of a plain synchronous same-class method with constant arguments - `self.get_header('Accept', default='*/*')` -
+      by interpreting the CALLEE on the same header input (one level): its parameters are bound to the constant arguments /
+      constant defaults, the header name is mangled concretely (`name.lower().encode('latin1')`, `'HTTP_' + name.upper()...`),
+      an empty-dict memo parameter misses (the hit path returns what the miss path stored: C19's memo purity), and statements
+      that neither return/raise, nor bind a local, nor mention a request-header table cannot change the answer and are skipped.
+
+    Nothing is assumed about what the callee does with a blank value: that is read from its body."""
+
+    TEXT_METHODS = ('lower', 'upper', 'casefold', 'title', 'encode', 'decode', 'replace', 'strip')
+    EMPTY_MEMO = ('empty-memo',)
+    POISON = ('unread',)
+
+    def __init__(self, getter, env, inp, p=None, cq=None, depth=0):
+        super().__init__(getter, env, inp)
+        self.p, self.cq, self.depth = p, cq, depth
+        self.keys: Set[object] = set()
+
+    # -- keys: constants, factory names, and (in a callee) the concretely mangled header name
+    def key(self, e, loc):
+        if isinstance(e, ast.Constant) and isinstance(e.value, (str, bytes)):
+            self.keys.add(e.value)
+            return
+        if isinstance(e, ast.Name) and e.id not in loc and self.env.get(e.id) is _c9._DERIVED:
+            return
+        v = self.ev(e, loc)
+        if v[0] == 'const' and isinstance(v[1], (str, bytes)):
+            self.keys.add(v[1])
+            return
+        self.bad('table key', e)
+
+    def _const(self, v, types):
+        return isinstance(v, tuple) and len(v) == 2 and v[0] == 'const' and isinstance(v[1], types)
+
+    def _callee(self, call):
+        if self.p is None or self.cq is None or self.depth >= 1:
+            return None
+        fn = call.func
+        if not (isinstance(fn, ast.Attribute) and is_name(fn.value, 'self')):
+            return None
+        m = _c9.effective_members(self.p, self.cq).get(fn.attr)
+        if m is None or m.kind != 'method' or m.func is None or m.func.is_async or m.func.decorators:
+            return None
+        return m.func
+
+    def _call_through(self, call, callee: Func, loc):
+        a = callee.node.args
+        if a.vararg is not None or a.kwarg is not None or any(isinstance(x, ast.Starred) for x in call.args) \
+                or any(k.arg is None for k in call.keywords):
+            self.bad('star arguments', call)
+        pos = [x.arg for x in list(a.posonlyargs) + list(a.args)][1:]      # without self
+        names = set(pos) | {x.arg for x in a.kwonlyargs}
+        if len(call.args) > len(pos):
+            self.bad('too many positional arguments', call)
+        env: Dict[str, tuple] = {}
+        for nm, x in zip(pos, call.args):
+            env[nm] = self.ev(x, loc)
+        for k in call.keywords:
+            if k.arg not in names or k.arg in env:
+                self.bad('keyword %s' % k.arg, call)
+            env[k.arg] = self.ev(k.value, loc)
+        sub = _AcceptGetterEval(callee, env, self.inp, self.p, self.cq, self.depth + 1)
+        defaults = list(zip(pos[len(pos) - len(a.defaults):], a.defaults)) + [(x.arg, d) for x, d in zip(a.kwonlyargs, a.kw_defaults) if d is not None]
+        for nm, d in defaults:
+            if nm in env:
+                continue
+            if isinstance(d, ast.Dict) and not d.keys:
+                env[nm] = self.EMPTY_MEMO
+            else:
+                v = self.p.fold(callee.module, d)
+                if v is UNKNOWN or not (v is None or isinstance(v, (str, bytes, bool, int))):
+                    self.bad('default of parameter %s of %s is not a constant' % (nm, callee.qual), d)
+                env[nm] = _c9.K_NONE if v is None else ('const', v)
+        for nm in names:
+            if nm not in env:
+                self.bad('parameter %s of %s is not bound' % (nm, callee.qual), call)
+            if not (env[nm] in (_c9.K_NONE, self.EMPTY_MEMO) or self._const(env[nm], (str, bytes, bool, int))):
+                self.bad('argument %s of %s is not a constant' % (nm, callee.qual), call)
+        for n in walk_no_nested(callee.node):
+            if isinstance(n, ast.Name) and isinstance(n.ctx, (ast.Store, ast.Del)) and n.id in env:
+                self.bad('%s rebinds its parameter %s' % (callee.qual, n.id))
+        try:
+            r = sub.run(callee.node.body, {})
+        finally:
+            self.tables |= sub.tables
+            self.keys |= sub.keys
+        return r[1] if r is not None else _c9.K_NONE
 
     def ev(self, e, loc):
-        if isinstance(e, ast.Call) and isinstance(e.func, ast.Attribute) and e.func.attr == 'decode' and not e.keywords \
-                and all(isinstance(x, ast.Constant) for x in e.args):
-            v = self.ev(e.func.value, loc)
-            if v == _c9.K_VALUE:
-                return v
-            if v[0] == 'const' and isinstance(v[1], bytes):
-                try:
-                    return ('const', v[1].decode(*[x.value for x in e.args]))
-                except Exception:  # noqa: BLE001
-                    self.bad('decode of a constant', e)
+        if isinstance(e, ast.Name) and e.id in loc and loc[e.id] is self.POISON:
+            self.bad('local bound by a statement that was not read', e)
+        if isinstance(e, ast.Call) and isinstance(e.func, ast.Attribute) and e.func.attr in self.TEXT_METHODS and not e.keywords \
+                and not self.is_table(e.func.value):
+            try:
+                v = self.ev(e.func.value, loc)
+            except _c9.Unreadable:
+                v = None
+            if v == _c9.K_VALUE and e.func.attr == 'decode' and all(isinstance(x, ast.Constant) for x in e.args):
+                return v                 # b''.decode(..) == '': blank stays blank
+            if v is not None and self._const(v, (str, bytes)):
+                args = [self.ev(x, loc) for x in e.args]
+                if all(self._const(x, (str, bytes)) for x in args):
+                    try:
+                        return ('const', getattr(v[1], e.func.attr)(*[x[1] for x in args]))
+                    except Exception:  # noqa: BLE001
+                        self.bad('%s of a constant' % e.func.attr, e)
             self.bad('call', e)
+        if isinstance(e, ast.Call):
+            callee = self._callee(e)
+            if callee is not None:
+                return self._call_through(e, callee, loc)
+        if isinstance(e, ast.BinOp) and isinstance(e.op, ast.Add):
+            l, r = self.ev(e.left, loc), self.ev(e.right, loc)
+            if self._const(l, str) and self._const(r, str) or self._const(l, bytes) and self._const(r, bytes):
+                return ('const', l[1] + r[1])
+            self.bad('expression', e)
+        if isinstance(e, ast.Subscript) and isinstance(e.ctx, ast.Load) and isinstance(e.value, ast.Name) \
+                and e.value.id not in loc and self.env.get(e.value.id) is self.EMPTY_MEMO:
+            self.ev(e.slice, loc)
+            raise _c9._HeaderMissing()    # a KeyError: the memo has no entry yet
+        if isinstance(e, ast.Compare) and len(e.ops) == 1 and isinstance(e.ops[0], (ast.In, ast.NotIn)) \
+                and self.p is not None and not self.is_table(e.comparators[0]):
+            l = self.ev(e.left, loc)
+            box = self.p.fold(self.f.module, e.comparators[0], None, self.f)
+            if self._const(l, (str, bytes)) and isinstance(box, (tuple, list, frozenset, set, dict)):
+                res = l[1] in box
+                return ('const', res if isinstance(e.ops[0], ast.In) else not res)
+            self.bad('expression', e)
         return super().ev(e, loc)
 
+    # -- statements
+    def _inert(self, s) -> bool:
+        """The statement cannot change what the accessor answers: no return/raise, no local binding, no mention of a
+        request-header table."""
+        if isinstance(s, (ast.Return, ast.Raise, ast.Assign, ast.AnnAssign, ast.Try, ast.Pass)) \
+                or (isinstance(s, ast.Expr) and isinstance(s.value, ast.Constant)):
+            if not (isinstance(s, ast.Assign) and not any(isinstance(x, ast.Name) and isinstance(x.ctx, ast.Store) for t in s.targets
+                                                           for x in ast.walk(t))):
+                return False
+        for n in ast.walk(s):
+            if isinstance(n, (ast.Return, ast.Raise, ast.Yield, ast.YieldFrom, ast.Await, ast.FunctionDef, ast.AsyncFunctionDef, ast.Lambda,
+                              ast.Global, ast.Nonlocal, ast.NamedExpr, ast.Delete, ast.Break, ast.Continue)):
+                return False
+            if isinstance(n, ast.Name) and isinstance(n.ctx, (ast.Store, ast.Del)):
+                return False
+            if isinstance(n, (ast.Attribute, ast.Name)) and _c9.table_of(self.f, n) is not None:
+                return False
+        return True
 
-def _accept_kinds(p, getter: Func, env) -> Dict[str, tuple]:
+    def run(self, stmts, loc):
+        for s in stmts:
+            if self.depth and self._inert(s):
+                continue
+            r = super().run([s], loc)
+            if r is not None:
+                return r
+        return None
+
+
+def _accept_kinds(p, getter: Func, env, cq=None) -> Tuple[Dict[str, tuple], Set[Optional[str]]]:
+    """-> (input class -> result kind, canonical names of the headers consulted through a looked-through callee)."""
     try:
-        return _c9.header_getter_kinds(p, getter, env)
+        return _c9.header_getter_kinds(p, getter, env), set()
     except _c9.Unreadable:
         pass
     if getter.is_async or len(getter.params()) != 1:
         raise _c9.Unreadable('%s: not a one-argument synchronous getter' % getter.qual)
     out: Dict[str, tuple] = {}
     tables: Set[str] = set()
+    keys: Set[object] = set()
     for inp in _c9.HEADER_INPUTS:
-        ge = _AcceptGetterEval(getter, env or {}, inp)
+        ge = _AcceptGetterEval(getter, env or {}, inp, p, cq)
         try:
             r = ge.run(getter.node.body, {})
             v = r[1] if r is not None else _c9.K_NONE
@@ -2845,9 +3217,11 @@ def _accept_kinds(p, getter: Func, env) -> Dict[str, tuple]:
             v = ('const', '')
         out[inp] = v
         tables |= ge.tables
+        keys |= ge.keys
     if len(tables) != 1:
         raise _c9.Unreadable('%s: reads %d request-header tables' % (getter.qual, len(tables)))
-    return out
+    kind = next(iter(tables))
+    return out, {_c9.norm_header_key(kind, k) for k in keys}
 
 
 def _header_names_read(p, getter: Func, env) -> Set[Optional[str]]:
@@ -2907,8 +3281,8 @@ def r8_accept_default(run):
         else:
             raise UnknownIdiom('%s.accept is neither a property nor a factory-built header property (%s)' % (cq, m.kind))
         run.use(getter)
-        kinds = _accept_kinds(p, getter, env)
-        names = _header_names_read(p, getter, env)
+        kinds, through = _accept_kinds(p, getter, env, cq)
+        names = _header_names_read(p, getter, env) | through
         if None in names or not names:
             raise UnknownIdiom('%s: header consulted by the accept accessor is not a constant header key' % getter.qual)
         run.check(names == {'accept'}, '%s: req.accept reads the Accept header' % tag, site, 'accept reads %s' % ', '.join(sorted(names)),
@@ -2931,7 +3305,10 @@ def check(run):
     # floors: counted by hand on the reference tree (R1 44 = 2 apps x (6 user-code events + render statements (1 / 5) + 4 arms x 3
     # + 1 render-window result); R2 16; R3 25 = 2 x 12 + 1; R4 102 = 7 composer + 1 Vary + 8 fields + 78 status table + 8 wiring;
     # (+5 negotiation: offer order, JSON first, negotiated on every path, 2 fallback assignments guarded by `preferred is None`);
-    # R5 4; R6 89 = pre-try statements + constructor statements; R8 8 = 2 stacks x (header name + 3 input classes)).  Kept a little below today's count so that harmless
+    # (+1 Vary: Accept through Response.append_header, evaluated on VARY_BEFORE);
+    # R5 4 (6 today: 2 apps x (composes 500, own escape set empty - str.format/% total only for constant templates -, no text
+    # conversion of the exception object); the escape half alone is registered by C03 as R10);
+    # R6 89 = pre-try statements + constructor statements; R8 8 = 2 stacks x (header name + 3 input classes); R9 = C11 R11).  Kept a little below today's count so that harmless
     # restructurings of the render region / fewer error classes do not make the check exit 2.
     run.rule('R1', r1_windows, 'user code and rendering run inside try/except Exception -> _handle_exception', floor=38)
     run.rule('R2', r2_selection, 'most specific registered class wins; latest registration wins; defaults installed', floor=16)
@@ -2946,3 +3323,5 @@ def check(run):
     run.rule('R8', r8_accept_default, "req.accept (what the error serializer negotiates with) is '*/*' for a missing and for a blank "
              'Accept header on both stacks', floor=8)
     run.rule('R7', _c11._safe(_c11.r8_q_never_decides_match), 'error-serializer negotiation: q never decides whether a media range matches (shared with C11 R8)', floor=5)
+    run.rule('R9', _c11._safe(_c11.r11_quality_stored_as_parsed), 'error-serializer negotiation: the weight of a range is the float parsed from '
+             'its q text, never rounded / truncated (a non-zero weight must not become q=0 "not acceptable" -> empty error body; shared with C11 R11)', floor=4)
